@@ -95,12 +95,13 @@ type job struct {
 }
 
 type finding struct {
-	Property string `json:"property"`
-	Class    string `json:"class"`
-	SigMatch string `json:"sig_contains"`
-	Text     string `json:"text"`
-	Status   string `json:"status"` // known | fixed
-	Commit   string `json:"commit,omitempty"`
+	ID         string   `json:"id"`
+	Properties []string `json:"properties"`
+	Classes    []string `json:"classes"`
+	SigAll     []string `json:"sig_contains_all"` // every substring must occur in the violation signature
+	Text       string   `json:"text"`
+	Status     string   `json:"status"` // known | fixed
+	Commit     string   `json:"commit,omitempty"`
 }
 
 func die2(format string, a ...any) {
@@ -152,6 +153,9 @@ func (b *builder) overlay(harness string) string {
 	if err != nil {
 		die2("overlay walk: %v", err)
 	}
+	for k, v := range b.runtimeOverlay() {
+		rep[k] = v
+	}
 	if needsInstrumentation(harness) {
 		inst := filepath.Join(b.scratch, "inst")
 		m, err := instrument(inst, harness)
@@ -168,6 +172,74 @@ func (b *builder) overlay(harness string) string {
 		die2("overlay: %v", err)
 	}
 	return ov
+}
+
+// runtimeOverlay patches two files of the Go runtime (copies in the scratch directory; GOROOT is not
+// touched): runtime.rand() — the source of map hash seeds, map iteration offsets, sync.Map seeds
+// and math/rand auto-seeding — and select's poll order become a pure function of a seed while the
+// simulator has switched them on (runtime.SimSetSeed). This removes the two sources of
+// nondeterminism the Go runtime adds on purpose.
+func (b *builder) runtimeOverlay() map[string]string {
+	out, err := exec.Command(goBin, "env", "GOROOT").Output()
+	if err != nil {
+		die2("go env GOROOT: %v", err)
+	}
+	goroot := strings.TrimSpace(string(out))
+	dir := filepath.Join(b.scratch, "rt")
+	os.MkdirAll(dir, 0o755)
+	patch := func(rel string, edits [][2]string, appendix string) (string, string) {
+		src := filepath.Join(goroot, "src", rel)
+		data, err := os.ReadFile(src)
+		if err != nil {
+			die2("runtime overlay: %v", err)
+		}
+		s := string(data)
+		for _, e := range edits {
+			if strings.Count(s, e[0]) != 1 {
+				die2("runtime overlay: pattern %q not found exactly once in %s (toolchain changed?)", e[0], src)
+			}
+			s = strings.Replace(s, e[0], e[1], 1)
+		}
+		s += appendix
+		dst := filepath.Join(dir, strings.ReplaceAll(rel, "/", "_"))
+		if err := os.WriteFile(dst, []byte(s), 0o644); err != nil {
+			die2("runtime overlay: %v", err)
+		}
+		return src, dst
+	}
+	m := map[string]string{}
+	src, dst := patch("runtime/rand.go", [][2]string{{
+		"func rand() uint64 {\n",
+		"func rand() uint64 {\n\tif simRandOn {\n\t\treturn simRandNext()\n\t}\n",
+	}}, `
+var (
+	simRandOn    bool
+	simRandState uint64
+)
+
+// SimSetSeed exists only in the verification overlay: while on, rand() (map seeds and iteration
+// offsets, sync.Map, math/rand auto-seeding) and select's poll order are a pure function of seed.
+func SimSetSeed(seed uint64, on bool) { simRandState = seed; simRandOn = on }
+
+//go:nosplit
+func simRandNext() uint64 {
+	// deliberately NOT a sequence: a constant per run. A sequence would make every map's order depend
+	// on how many maps were created before it, which sync.Pool reuse across runs of one worker
+	// process changes. With a constant, a map's iteration order is a function of the run seed and of
+	// the map's own history only, and every select of a run polls in the same seed-chosen permutation.
+	z := simRandState + 0x9e3779b97f4a7c15
+	z = (z ^ (z >> 30)) * 0xbf58476d1ce4e5b9
+	z = (z ^ (z >> 27)) * 0x94d049bb133111eb
+	return z ^ (z >> 31)
+}
+`)
+	m[src] = dst
+	src, dst = patch("runtime/select.go", [][2]string{{
+		"\t\tj := cheaprandn(uint32(norder + 1))\n",
+		"\t\tvar j uint32\n\t\tif simRandOn {\n\t\t\tj = uint32((uint64(uint32(simRandNext())) * uint64(uint32(norder+1))) >> 32)\n\t\t} else {\n\t\t\tj = cheaprandn(uint32(norder + 1))\n\t\t}\n",
+	}}, "")
+	m[src] = dst
+	return m
 }
 
 func (b *builder) build(harness string) string {
@@ -381,7 +453,30 @@ func matchFinding(fs []finding, prop, class, sig string) *finding {
 		if f.Status != "known" {
 			continue
 		}
-		if f.Property == prop && f.Class == class && strings.Contains(sig, f.SigMatch) {
+		ok := false
+		for _, p := range f.Properties {
+			if p == prop {
+				ok = true
+			}
+		}
+		if !ok {
+			continue
+		}
+		ok = false
+		for _, c := range f.Classes {
+			if c == class {
+				ok = true
+			}
+		}
+		if !ok || len(f.SigAll) == 0 {
+			continue
+		}
+		for _, sub := range f.SigAll {
+			if !strings.Contains(sig, sub) {
+				ok = false
+			}
+		}
+		if ok {
 			return f
 		}
 	}
@@ -443,7 +538,7 @@ func cmdRun(args []string) {
 		wg.Add(1)
 		go func(w int) {
 			defer wg.Done()
-			j := job{Mode: "run", Property: p.ID, Seed: seed, Start: w, Stride: *workers, Count: count, Tier: *tier, BudgetS: bs, KeepGoing: *scan}
+			j := job{Mode: "run", Property: p.ID, Seed: seed, Start: w, Stride: *workers, Count: count, Tier: *tier, BudgetS: bs, KeepGoing: true}
 			results[w] = runWorker(bin, j, b.scratch, fmt.Sprintf("w%d", w), time.Duration(bs+90)*time.Second)
 		}(w)
 	}
@@ -554,7 +649,7 @@ func cmdRun(args []string) {
 			}
 			knownSeen[f.Text] = true
 			nKnown++
-			fmt.Printf("KNOWN-FINDING: property=%s %s (class=%s sig=%q replay=%s)\n", p.ID, f.Text, res.class, res.sig, res.path)
+			fmt.Printf("KNOWN-FINDING: property=%s %s: %s (class=%s sig=%q replay=%s)\n", p.ID, f.ID, f.Text, res.class, res.sig, res.path)
 			continue
 		}
 		nViol++
